@@ -50,6 +50,10 @@ def run(ck):
     from ..report import RuleView
     from . import c14
     c14.join_score(RuleView(ck, {"C14.2": "C01.9"}))
+    ck.clause("C01.15", "the chainer hands segments back without its admissibility search only when at most one is non-empty (as C14.4 "
+                        ":early-return): a short cut that returns all segments as the chain lets crossing / duplicate segments of "
+                        "secondary peaks into one record")
+    c14.dp(RuleView(ck, {"C14.4": "C01.15"}, only_constructs=(":early-return",)))
     ck.clause("C01.11", "what conflict resolution removes from a segment comes from that segment's own conflicting sub-run (as C15.3): "
                         "subtracting the other side's sub-run removes almost nothing and both segments keep the overlap")
     ck.clause("C01.12", "the conflicting sub-run handed to the trim reaches to the end of the overlap whatever unpaired labels lie in it "
@@ -522,6 +526,9 @@ def _pair_generator(ck, gen_fn, n):
             return x[4][1] if x[0] == "slice" and x[4][0] == "c" and isinstance(x[4][1], int) else None
         if a[0] == "slice" and b[0] == "slice" and a[1] == b[1] and (stride(a) or 1) > 1 and stride(a) == stride(b):
             return False, f"{T.show(v)[:120]} yields the disjoint pairs (0,1), (2,3), ...: every second neighbour pair of the chain is never resolved"
+        # zip(r[:-1], r[1:]): the same pairs as idiom C (zip stops with the shorter operand anyway)
+        if a[0] == "slice" and b[0] == "slice" and a[1] == b[1] and a[2:] == (T.NONE, C(-1), T.NONE) and b[2:] == (C(1), T.NONE, T.NONE):
+            return (a[1] in (rng, T.mk_call("list", [rng]))), T.show(v)
         # idiom C: zip(r, r[1:])
         if b == ("slice", a, C(1), T.NONE, T.NONE):
             return (a in (rng, T.mk_call("list", [rng]))), T.show(v)
